@@ -12,14 +12,14 @@ var vHoleDocs = []string{
 	vBanDocs[0].root,
 	// 1: JSON-RPC
 	vBanDocs[1].root,
-	// 2: Description forms, regex / enum / any types, tags, macros used twice, nested explicit contexts
+	// 2: Description forms, regex / enum / jsight types, tags, a macro used twice, nested explicit contexts, comments, CRLF tail
 	"JSIGHT 0.3\n" +
 		"TAG @a // first\n  Description\n  (\n    tag text\n  )\n" +
 		"TYPE @re regex\n/ab+c/\n" +
-		"TYPE @x any\n" +
+		"TYPE @x\n{\"v\": 1}\n" +
 		"ENUM @en /* enum */\n[\"a\", \"b\"] \n" +
 		"MACRO @errs\n(\n  404 any\n  500 @x\n)\n" +
-		"GET /a/{id} // get it\n  Description\n200\n  {\"ok\": true} # trailing comment\n  PASTE @errs\n" +
+		"GET /a/{id} // get it\n  Description\n    the text\n    of it\n  200\n  {\"ok\": true}\n  PASTE @errs # trailing comment\n" +
 		"URL /b\n(\n  POST\n  (\n    Request regex\n    /x+/\n    201 [@x]\n    PASTE @errs\n  )\n)\n" +
 		"### block\ncomment ###\n" +
 		"DELETE /b\r\n  Tags @a\r\n  200 empty\r\n",
